@@ -172,12 +172,25 @@ def run_impl(exe, scen_text, reporter, workdir, env=None, timeout=60):
     if env:
         e.update(env)
     o = Obs()
+    proc = subprocess.Popen([exe, sf, reporter, workdir], stdout=subprocess.PIPE, stderr=subprocess.PIPE, env=e, start_new_session=True)
     try:
-        r = subprocess.run([exe, sf, reporter, workdir], stdout=subprocess.PIPE, stderr=subprocess.PIPE, env=e, timeout=timeout)
-        o.rc, o.stdout, o.stderr = r.returncode, r.stdout.decode("latin-1"), r.stderr.decode("latin-1")
+        out, err = proc.communicate(timeout=timeout)
+        o.rc, o.stdout, o.stderr = proc.returncode, out.decode("latin-1"), err.decode("latin-1")
         o.timeout = False
-    except subprocess.TimeoutExpired as ex:
-        o.rc, o.stdout, o.stderr, o.timeout = None, (ex.stdout or b"").decode("latin-1"), (ex.stderr or b"").decode("latin-1"), True
+    except subprocess.TimeoutExpired:
+        o.rc, o.stdout, o.stderr, o.timeout = None, "", "", True
+    finally:
+        # test processes that outlive the run (a sleeping child whose parent was killed) go with the group
+        try:
+            os.killpg(proc.pid, 9)
+        except OSError:
+            pass
+        if o.timeout:
+            try:
+                out, err = proc.communicate(timeout=5)
+                o.stdout, o.stderr = out.decode("latin-1"), err.decode("latin-1")
+            except Exception:
+                pass
     try:
         o.events = open(os.path.join(workdir, "events")).read().split("\n")
     except OSError:
